@@ -95,7 +95,7 @@ Definition starts (o : op xml bytes) : Prop :=
 Theorem start_inv : forall fs (d0 : document) o, FsOK fs -> AllGood fs -> starts o ->
   snd (step (fs, d0) o) = Done -> CInv (fst (step (fs, d0) o)).
 Proof.
-  intros fs d0 o F G Hs Hd. unfold Package.step in *. destruct o as [p b|p m'| | | | | | | | |]; cbn [starts] in Hs; try (exfalso; exact Hs).
+  intros fs d0 o F G Hs Hd. unfold Package.step in *. destruct o as [p b|p m'| | | | | | | | | |]; cbn [starts] in Hs; try (exfalso; exact Hs).
   - destruct (c_open bytes kid fs p b) as [c|] eqn:O; cbn [fst snd] in *; [|discriminate].
     split; [split; [exact F|apply (open_doc_wf xml bytes kid fs p b c O)]|]. split; [apply (G p b c O)|exact G].
   - destruct (c_new xml bytes kid ser par entries with_entries mime_bytes FIXED fs p m') as [c|] eqn:O; cbn [fst snd] in *; [|discriminate].
